@@ -21,6 +21,7 @@ package common
 import (
 	"encoding/binary"
 	"fmt"
+	"math"
 	"strings"
 	"sync"
 
@@ -347,15 +348,24 @@ func (bA *BitArray) ToProto() *kprotobits.BitArray {
 	}
 }
 
-// FromProto sets a protobuf BitArray to the given pointer.
-func (bA *BitArray) FromProto(protoBitArray *kprotobits.BitArray) {
+// FromProto sets a protobuf BitArray to the given pointer. It returns an error
+// when the number of words does not match the number of bits: such an array
+// comes from a faulty peer and would make every index access panic.
+func (bA *BitArray) FromProto(protoBitArray *kprotobits.BitArray) error {
 	if protoBitArray == nil {
 		bA = nil
-		return
+		return nil
+	}
+	if protoBitArray.Bits < 0 || protoBitArray.Bits > math.MaxInt32 {
+		return fmt.Errorf("invalid BitArray: %d bits", protoBitArray.Bits)
+	}
+	if got, exp := len(protoBitArray.Elems), (int(protoBitArray.Bits)+63)/64; got != exp {
+		return fmt.Errorf("invalid BitArray: %d bits need %d elems, got %d", protoBitArray.Bits, exp, got)
 	}
 
 	bA.Bits = uint(protoBitArray.Bits)
 	if len(protoBitArray.Elems) > 0 {
 		bA.Elems = protoBitArray.Elems
 	}
+	return nil
 }
